@@ -69,8 +69,12 @@ package xmlenc
 //@    k != nil && BigEq(k.N, pubKey.N) && k.E == pubKey.E
 //@ go func isRSAPub(k interface{}) bool { _, ok := k.(*rsa.PublicKey); return ok }
 
+//@ -- the caller's key is the caller's: whatever the decrypters wipe or overwrite wholesale is memory they allocated
+//@ -- themselves (a key slice passed in is used again by the caller for the next message)
+//@ ghost func allocatedHereBytes(b []byte) bool
 //@ contract (CBC).Decrypt
 //@ requires el: ciphertextEl != nil
+//@ assert@call[C10,C11] clear #each (b []byte) wipes_only_its_own_memory: allocatedHereBytes(b)
 //@ requires[cfg] cipher: e.cipher != nil
 //@ requires[cfg] key: rsaKeyOK(key)
 //@ -- framing, the mirror image of Encrypt: a key of exactly the cipher's size keys the block cipher; the first block of
@@ -90,6 +94,7 @@ package xmlenc
 
 //@ contract (GCM).Decrypt
 //@ requires el: ciphertextEl != nil
+//@ assert@call[C10,C11] clear #each (b []byte) wipes_only_its_own_memory: allocatedHereBytes(b)
 //@ requires[cfg] cipher: e.cipher != nil
 //@ requires[cfg] key: rsaKeyOK(key)
 //@ -- C11: every byte of the cipher value goes through the AEAD: the first NonceSize bytes as the nonce, all the rest as
